@@ -119,6 +119,12 @@ def lookupLevel (users : List (Text × Int)) (u : Text) : Option Int :=
 def notificationsGet (pl : PowerLevelsCtx) (key : Text) : Option Int :=
   if key = kRoom then some pl.room else none
 
+/-- `power_levels.users.get(sender_id).unwrap_or(&power_levels.users_default)`. -/
+def userLevel (pl : PowerLevelsCtx) (u : Text) : Int :=
+  match lookupLevel pl.users u with
+  | some l => l
+  | none => pl.usersDefault
+
 /-- The `SenderNotificationPermission` arm of `PushCondition::applies`. -/
 def senderMayNotify (E : Ext) (ev : FMap) (ctx : Ctx) (key : Text) : Bool :=
   match ctx.powerLevels with
@@ -129,9 +135,7 @@ def senderMayNotify (E : Ext) (ev : FMap) (ctx : Ctx) (key : Text) : Bool :=
     | some v =>
       if !E.isUserId v then false
       else
-        let senderLevel := match lookupLevel pl.users v with
-          | some l => l
-          | none => pl.usersDefault
+        let senderLevel := userLevel pl v
         match notificationsGet pl key with
         | some l => decide (senderLevel ≥ l)
         | none => false
